@@ -161,7 +161,7 @@ pub fn run_srv(case: &str) -> String {
     let idle: u64 = f.get(3).map(|x| x.parse().unwrap()).unwrap_or(0);
     let (meet, route) = if idle > 0 { (&crate::s_conn::MEETB, "meetb") } else { (&crate::s_conn::MEET, "meet") };
     meet.store(0, Ordering::SeqCst);
-    let port = { let l = std::net::TcpListener::bind("127.0.0.1:0").unwrap(); l.local_addr().unwrap().port() };
+    let port = crate::util::listen_port();
     let stop = Arc::new(AtomicBool::new(false));
     let mut b = khttp::Server::builder(("127.0.0.1", port)).unwrap();
     b.thread_count(k);
